@@ -162,6 +162,54 @@ func (L *Loaded) globalTable(o *types.Var) [][2]constant.Value {
 	return tab
 }
 
+// globalNonNilError: a package-level variable initialised by errors.New / fmt.Errorf and never
+// written afterwards holds a non-nil error.
+func (L *Loaded) globalNonNilError(o *types.Var) bool {
+	var p *packages.Package
+	for _, q := range L.Pkgs {
+		if q.Types == o.Pkg() {
+			p = q
+		}
+	}
+	if p == nil {
+		return false
+	}
+	init, written := false, false
+	for _, f := range p.Syntax {
+		ast.Inspect(f, func(n ast.Node) bool {
+			switch n := n.(type) {
+			case *ast.ValueSpec:
+				for i, id := range n.Names {
+					if p.TypesInfo.Defs[id] == o && i < len(n.Values) {
+						if ce, ok := n.Values[i].(*ast.CallExpr); ok {
+							if se, ok := ce.Fun.(*ast.SelectorExpr); ok {
+								if fn, ok := p.TypesInfo.ObjectOf(se.Sel).(*types.Func); ok && fn.Pkg() != nil {
+									k := fn.Pkg().Path() + "." + fn.Name()
+									if k == "errors.New" || k == "fmt.Errorf" {
+										init = true
+									}
+								}
+							}
+						}
+					}
+				}
+			case *ast.AssignStmt:
+				for _, l := range n.Lhs {
+					if rootObj(p.TypesInfo, l) == o {
+						written = true
+					}
+				}
+			case *ast.UnaryExpr:
+				if n.Op == token.AND && rootObj(p.TypesInfo, n.X) == o {
+					written = true
+				}
+			}
+			return true
+		})
+	}
+	return init && !written
+}
+
 func rootObj(info *types.Info, e ast.Expr) types.Object {
 	for {
 		switch x := e.(type) {
